@@ -433,6 +433,36 @@ Definition get_name (c : cfg) (fuel : nat) (r : reader) (token : bool) : res (re
   end.
 
 (* ------------------------------------------------------------------------------------------- *)
+(** * ReaderMgr::popReader (src/xercesc/internal/ReaderMgr.cpp), the path that does not throw EndOfEntity:
+      the reader stack is a list (head = most recently pushed parent).  After popping, "we might have multiple readers
+      on the stack that are empty (the last char in them was the ';' of the entity reference that pushed the next
+      entity)": loop until a reader with characters is found, REFRESHING a reader whose buffer is merely exhausted *)
+Fixpoint pop_loop (c : cfg) (cur : reader) (stack : list reader) : res (option (reader * list reader)) rerr :=
+  match ccur cur with
+  | _ :: _ => Ok (Some (cur, stack))                     (* if (fCurReader->charsLeftInBuffer()) break; *)
+  | [] =>
+    match refresh_char c cur with                        (* fCurReader->refreshCharBuffer(); *)
+    | Err e => Err e
+    | Ok (cur', _) =>
+      match ccur cur' with
+      | _ :: _ => Ok (Some (cur', stack))                (* if (fCurReader->charsLeftInBuffer()) break; *)
+      | [] =>
+        match stack with
+        | [] => Ok None                                  (* if (fReaderStack->empty()) return false; *)
+        | p :: rest => pop_loop c p rest                 (* pop again and try one more time *)
+        end
+      end
+    end
+  end.
+
+(** popReader: false when the stack is empty, else pop and look for a non-empty reader *)
+Definition pop_reader (c : cfg) (stack : list reader) : res (option (reader * list reader)) rerr :=
+  match stack with
+  | [] => Ok None
+  | p :: rest => pop_loop c p rest
+  end.
+
+(* ------------------------------------------------------------------------------------------- *)
 (** * operation language of the correspondence and of T01_reader_inv *)
 Inductive op : Type :=
 | OGet | OPeek | OGetIfNot (ch : N) | OSkipChar (ch : N) | OSkipSpace | OSkipSpaces
